@@ -2,8 +2,10 @@ package props
 
 import (
 	"fmt"
+	"go/ast"
 	"go/token"
 	"go/types"
+	"golang.org/x/tools/go/packages"
 	"sort"
 	"strings"
 
@@ -338,4 +340,142 @@ func returnsFS(f *ssa.Function) bool {
 	}
 	n0, n1 := core.NamedOf(res.At(0).Type()), core.NamedOf(res.At(res.Len()-1).Type())
 	return n0 != nil && n0.Obj().Name() == "FS" && n1 != nil && n1.Obj().Name() == "Errno"
+}
+
+// declOf returns the declaration of f in package p (nil for functions of other packages).
+func declOf(p *packages.Package, f *types.Func) *ast.FuncDecl {
+	var out *ast.FuncDecl
+	core.AllFuncDecls(p, func(g *ast.FuncDecl) {
+		if p.TypesInfo.Defs[g.Name] == types.Object(f) && g.Body != nil {
+			out = g
+		}
+	})
+	return out
+}
+
+// ---- call entries (R07.3 pre-check, R07.7): decided on SSA so that the form of the test (select/default inline, a
+// predicate helper, a one-level helper doing the whole check) does not matter.
+
+func ssaCalleeIs(call ssa.CallInstruction, f *types.Func) bool {
+	sc := call.Common().StaticCallee()
+	return sc != nil && sc.Object() == types.Object(f)
+}
+
+// instrBefore: a executes before b on some path of their (common) function and never after it on a path without loops.
+func instrBefore(a, b ssa.Instruction) bool {
+	if a.Block() == b.Block() {
+		return instrIndex(a) < instrIndex(b)
+	}
+	return blockReaches(a.Block(), b.Block())
+}
+
+// consultsDone: the function contains a non-blocking receive from a Done() channel, itself or through a callee of its
+// package (one level).
+func consultsDone(fn *ssa.Function, depth int) bool {
+	for _, b := range fn.Blocks {
+		for _, in := range b.Instrs {
+			switch x := in.(type) {
+			case *ssa.Select:
+				if x.Blocking {
+					continue
+				}
+				for _, st := range x.States {
+					if call, ok := st.Chan.(*ssa.Call); ok && call.Common().IsInvoke() && call.Common().Method.Name() == "Done" {
+						return true
+					}
+				}
+			case *ssa.Call:
+				if f := x.Common().StaticCallee(); f != nil && f.Pkg == fn.Pkg && f.Blocks != nil && depth < 1 && consultsDone(f, depth+1) {
+					return true
+				}
+			}
+		}
+	}
+	return false
+}
+
+type callEntryFacts struct {
+	entry    *ssa.Function
+	watcher  ssa.Instruction
+	pre      bool   // done context: closes with the context error and returns FailIfClosed's error, before the watcher
+	polls    bool   // context not done: FailIfClosed consulted and used, before the watcher
+	preWhere string // the function holding the pre-check
+}
+
+// callEntries returns the facts of every function of the package that starts the cancellation watcher.
+func callEntries(c *core.Ctx, rel string, closeOnCancel, closeWithCtxErr, failIfClosed *types.Func) []*callEntryFacts {
+	var out []*callEntryFacts
+	fns := moduleFns(c, rel)
+	sort.Slice(fns, func(i, j int) bool { return fns[i].String() < fns[j].String() })
+	for _, fn := range fns {
+		if fn.Parent() != nil {
+			continue
+		}
+		var w ssa.Instruction
+		for _, b := range fn.Blocks {
+			for _, in := range b.Instrs {
+				if call, ok := in.(ssa.CallInstruction); ok && ssaCalleeIs(call, closeOnCancel) {
+					w = in
+				}
+			}
+		}
+		if w == nil {
+			continue
+		}
+		f := &callEntryFacts{entry: fn, watcher: w}
+		out = append(out, f)
+		// the functions in which the check may live: the entry, and the helpers it calls before the watcher
+		type cand struct {
+			g    *ssa.Function
+			site ssa.Instruction // nil for the entry itself
+		}
+		cands := []cand{{fn, nil}}
+		for _, b := range fn.Blocks {
+			for _, in := range b.Instrs {
+				if call, ok := in.(*ssa.Call); ok {
+					if h := call.Common().StaticCallee(); h != nil && h.Pkg == fn.Pkg && h.Blocks != nil && h != fn && instrBefore(in, w) {
+						cands = append(cands, cand{h, in})
+					}
+				}
+			}
+		}
+		for _, cd := range cands {
+			g := cd.g
+			inScope := func(in ssa.Instruction) bool { return cd.site != nil || !instrBefore(w, in) } // not after the watcher is started
+			var k ssa.Instruction
+			for _, b := range g.Blocks {
+				for _, in := range b.Instrs {
+					if call, ok := in.(ssa.CallInstruction); ok && ssaCalleeIs(call, closeWithCtxErr) && inScope(in) {
+						k = in
+					}
+				}
+			}
+			for _, b := range g.Blocks {
+				for _, in := range b.Instrs {
+					call, ok := in.(*ssa.Call)
+					if !ok || !ssaCalleeIs(call, failIfClosed) || !inScope(in) {
+						continue
+					}
+					afterK := k != nil && (k.Block() == b && instrIndex(k) < instrIndex(in) || k.Block() != b && k.Block().Dominates(b))
+					used := call.Referrers() != nil && len(*call.Referrers()) > 0
+					if afterK {
+						// returned on the done path
+						for _, u := range *call.Referrers() {
+							// (with a deferred recover the result is first stored in the named result)
+							_, isRet := u.(*ssa.Return)
+							if st, ok := u.(*ssa.Store); ok && st.Val == ssa.Value(call) {
+								_, isRet = st.Addr.(*ssa.Alloc)
+							}
+							if isRet && consultsDone(g, 0) {
+								f.pre, f.preWhere = true, g.Name()
+							}
+						}
+					} else if used {
+						f.polls = true
+					}
+				}
+			}
+		}
+	}
+	return out
 }
